@@ -26,7 +26,7 @@ def run(ctx, col, tier):
              "nor nesting depth grows the interpreter stack", floor=2)
     col.rule("R-LEX", "the lexer maps the four punctuation characters to distinct token types, "
              "which are the bracket/separator types the parser tests for; everything else is a "
-             "number or a literal", floor=4)
+             "number or a literal; a number is the conversion of the whole word", floor=5)
     col.rule("R-LABEL", "tree labels accepted by the parser = labels the converter maps to a node "
              "type (same case folding); axon -> axon type, dendrite -> a dendrite type", floor=3)
     col.rule("R-COUNTER", "conversion walk: one fresh id per point (read, then a single +1), "
@@ -51,13 +51,13 @@ def run(ctx, col, tier):
 
     repo = ctx.repo
     lex = lexer_table(ctx, col)
-    balance(ctx, col, lex)
+    col.guard(balance, ctx, col, lex)
     for q in (f"{CONV}.from_stream", f"{CONV}.convert"):
         recursion_free(ctx, col, "R-CG", [q], f"recursion-free from {q.rsplit('.', 1)[-1]}", allow=())
-    labels(ctx, col)
-    walk(ctx, col)
-    points(ctx, col)
-    errors(ctx, col)
+    col.guard(labels, ctx, col)
+    col.guard(walk, ctx, col)
+    col.guard(points, ctx, col)
+    col.guard(errors, ctx, col)
 
 
 # --------------------------------------------------------------------------- lexer
@@ -93,6 +93,32 @@ def lexer_table(ctx, col):
                   f"`{ch}` has its own token type", f"{ch!r} -> {got}",
                   f"{ch!r} is mapped to {got}, which is not a distinct member of TokenType", stmt=f"lex:{ch}",
                   facts={"table": table})
+    # numbers: the whole word is converted (float() itself rejects a malformed word); a prefix
+    # match whose matched text alone is converted accepts `1.2.3`, `12abc`, ...
+    for case in m[0].cases:
+        rets = [r for r in ast.walk(case) if isinstance(r, ast.Return) and isinstance(r.value, ast.Call) and r.value.args
+                and (dotted(r.value.args[0]) or "").endswith("FLOAT")]
+        if not rets:
+            continue
+        val = rets[0].value.args[1] if len(rets[0].value.args) > 1 else None
+        conv = val if isinstance(val, ast.Call) and dotted(val.func) == "float" and val.args else None
+        word = None
+        subj = m[0].subject
+        if isinstance(subj, ast.NamedExpr):
+            word = subj.target.id
+        arg = norm_src(conv.args[0]) if conv is not None else ""
+        methods = {c.func.attr for c in ast.walk(case) if isinstance(c, ast.Call) and isinstance(c.func, ast.Attribute)
+                   and c.func.attr in ("match", "fullmatch", "search")}
+        whole = conv is not None and arg == word
+        via_group = conv is not None and ".group(" in arg
+        if via_group and "fullmatch" not in methods:
+            col.bad(R, d.qualname, d.loc(conv), "a number token is the conversion of the whole word",
+                    f"`{norm_src(conv)}` converts only the text matched by a prefix match ({sorted(methods)}): a corrupted field "
+                    f"such as `1.2.3` or `12abc` becomes a number instead of an error", stmt="lex:float")
+        else:
+            col.judge(conv is not None, whole or (via_group and "fullmatch" in methods), R, d.qualname, d.loc(rets[0]),
+                      "a number token is the conversion of the whole word", norm_src(rets[0].value),
+                      f"`{norm_src(rets[0].value)}` does not convert the whole word", stmt="lex:float")
     return {"types": names, "open": table.get("("), "close": table.get(")"), "or": table.get("|"),
             "comment": table.get(";")}
 
